@@ -315,7 +315,10 @@ CHECKS = {
                   "(C03). The model is tied to /repo by stepping real goroutines through pause points added to pkg/notify (tag verif): ~3000 "
                   "schedules (60000 thorough) of 1-3 waiters, 0-2 Set, 0-2 Close with cancellations - of parked waiters and, pending until "
                   "the final select, of waiters still on their way (Notify.xstep, proved to add no behaviour to the base system); the "
-                  "status of every thread afterwards must equal the model's.",
+                  "status of every thread afterwards must equal the model's; and the transcription itself is checked on every run: the channel "
+                  "and atomic operations of Wait / Set / Close (receives and sends on the barrier, closes, the final select, Load / Store "
+                  "with their guards, the pause points) are read off /repo/pkg/notify/notify.go (harness/cmd/protoscan, go/ast) and compared "
+                  "with lib/notify_protocol.txt.",
              ref='6/C18', technique='Coq proof (inductive invariant of a small-step model, all interleavings) + pause-point schedules on the real notifier',
              note="Not expressible in the model: atomicity of a Go channel operation and of atomic.Int64, and scheduler fairness (liveness "
                   "is stated as enabledness). " + COMMON_NOTE),
